@@ -51,7 +51,10 @@ def generate(rng, tier):
     if cand and rng.random() < 0.5:
         nested = rng.sample(cand, min(len(cand), rng.randint(1, 2)))
     ops = []
+    late_nested = [n for n in nested if rng.random() < 0.4]
     for sub in nested:
+        if sub in late_nested:
+            continue
         args = gen.fmt_args(gen.pick_formats(rng, 1, 2))
         if rng.random() < 0.4:
             args += ["-i", rng.choice(sorted(PATS))]
@@ -83,6 +86,11 @@ def generate(rng, tier):
             root = "@R"
         ops.append(scen.cmd("create", root, *args))
         ops.append(scen.gen_advance(rng))
+        if late_nested and g >= 0 and rng.random() < 0.6:
+            # a nested history that starts its life after the parent already carries patterns
+            sub = late_nested.pop()
+            ops.append(scen.cmd("create", scen.root_arg(sub), *gen.fmt_args(gen.pick_formats(rng, 1, 2))))
+            ops.append(scen.gen_advance(rng))
     ops.append({"op": "ignored_fault_phase", "seed": rng.getrandbits(32), "n": rng.randint(1, 3)})
     return {"world": env, "ops": ops}
 
